@@ -73,14 +73,64 @@ def scal(x) -> str:
     return "n" + rs(frac(x))
 
 
-def describe(o) -> tuple:
-    """(kind, ndim, cols, rows as list of lists of scalar tokens)"""
+def _val_tok(x) -> str:
+    """one value of a time / time-delta format: floats exactly, datetime / timedelta as whole microseconds"""
+    import datetime as _dt
+
+    if isinstance(x, _dt.datetime):
+        return "n" + str((x - _dt.datetime.min) // _dt.timedelta(microseconds=1))
+    if isinstance(x, _dt.timedelta):
+        return "n" + str(x // _dt.timedelta(microseconds=1))
+    if isinstance(x, (str, np.str_)):
+        return "t" + hexs(str(x))
+    return scal(x)
+
+
+def time_rows(kind: str, j1, j2, vals, n: int):
+    """(ndim, cols, rows) of a time / time delta with its values: a row is jd1, jd2, then the value(s) in the format of
+    the array; an empty epoch (datetime.min) is all-NaN"""
+    j1 = np.atleast_1d(np.asarray(j1, dtype=float))
+    j2 = np.atleast_1d(np.asarray(j2, dtype=float))
+    v = np.asarray(vals)
+    if v.ndim == 0:
+        v = v.reshape((1,))
+    cols = 1 if v.ndim == 1 else v.shape[1]
+    ndim = 1 if v.ndim == 1 else 2
+    if len(j1) != n or len(j2) != n or v.shape[0] != n:
+        return ndim, cols, [["!jd-length", str(len(j1)), str(len(j2)), str(v.shape[0]), str(n)]]
+    rows = []
+    for i, (a, b) in enumerate(zip(j1, j2)):
+        if kind == "time" and abs(frac(a) + frac(b) - EMPTY_TIME_JD) < 2:
+            rows.append(["nan"] * (2 + cols))
+        else:
+            vs = [_val_tok(v[i])] if v.ndim == 1 else [_val_tok(x) for x in v[i]]
+            rows.append([scal(a), scal(b)] + vs)
+    return ndim, cols, rows
+
+
+def tag_of(o) -> str:
+    """`<scale>/<format>` of a time, `d:<scale>/<format>` of a time delta, "" for everything else"""
+    from midgard.data._time import TimeArray, TimeDeltaArray
+
+    if isinstance(o, TimeArray):
+        return f"{o.scale}/{o.fmt}"
+    if isinstance(o, TimeDeltaArray):
+        return f"d:{o.scale}/{o.fmt}"
+    return ""
+
+
+def describe(o, tv: bool = False) -> tuple:
+    """(kind, ndim, cols, rows as list of lists of scalar tokens); `tv`: a time / time delta row also carries the
+    value(s) of the array in its own format (C09), not only jd1, jd2 (C10)"""
     from midgard.data._time import TimeArray, TimeDeltaArray
     from midgard.data._position import PosBase
     from midgard.data.sigma import SigmaArray
 
     if isinstance(o, (TimeArray, TimeDeltaArray)):
         kind = "time" if isinstance(o, TimeArray) else "time_delta"
+        if tv:
+            ndim, cols, rows = time_rows(kind, o.jd1, o.jd2, np.asarray(o), len(o))
+            return kind, ndim, cols, rows
         j1 = np.atleast_1d(np.asarray(o.jd1, dtype=float))
         j2 = np.atleast_1d(np.asarray(o.jd2, dtype=float))
         n = len(o)
@@ -105,6 +155,8 @@ def describe(o) -> tuple:
         s = np.asarray(o.sigma)
         if s.shape != a.shape:
             return "sigma", a.ndim, (1 if a.ndim == 1 else a.shape[1]), [["!sigma-shape", str(s.shape), str(a.shape)]]
+        if a.ndim > 2:
+            return "sigma", a.ndim, -1, [["!ndim", str(a.shape).replace(" ", "").replace(",", "x")]]
         if a.ndim == 1:
             return "sigma", 1, 1, [[scal(x), scal(y)] for x, y in zip(a, s)]
         return "sigma", a.ndim, a.shape[1], [[scal(x) for x in r] + [scal(y) for y in q] for r, q in zip(a, s)]
@@ -121,38 +173,40 @@ def rows_token(rows) -> str:
     return "[]" if not rows else ";".join(",".join(r) for r in rows)
 
 
-def render_obj(o, seen: list) -> str:
+def render_obj(o, seen: list, tv: bool = False) -> str:
     for i, s in enumerate(seen):
         if s is o:
             return f"#{i}"
     k = len(seen)
     seen.append(o)
-    kind, ndim, cols, rows = describe(o)
+    kind, ndim, cols, rows = describe(o, tv)
     oth = getattr(o, "other", None) if kind in ("position", "posvel") else None
     rp = getattr(o, "ref_pos", None) if kind in ("position_delta", "posvel_delta") else None
-    so = render_obj(oth, seen) if oth is not None else "-"
-    sr = render_obj(rp, seen) if rp is not None else "-"
-    return f"#{k}{{{kind};{ndim};{cols};{rows_token(rows)}|o={so}|r={sr}}}"
+    so = render_obj(oth, seen, tv) if oth is not None else "-"
+    sr = render_obj(rp, seen, tv) if rp is not None else "-"
+    tag = tag_of(o) if tv else ""
+    return f"#{k}{{{kind};{ndim};{cols};{rows_token(rows)}|o={so}|r={sr}" + (f"|g={tag}" if tag else "") + "}"
 
 
-def render_fields(fields: dict, seen: list) -> str:
+def render_fields(fields: dict, seen: list, tv: bool = False) -> str:
     out = []
     for name, f in fields.items():
         ft = f.fieldtype
         if ft == "collection":
-            out.append(f"C({name};{f.num_obs};{int(f._write_level)};[{render_fields(f.data._fields, seen)}])")
+            out.append(f"C({name};{f.num_obs};{int(f._write_level)};[{render_fields(f.data._fields, seen, tv)}])")
         else:
             u = "-" if f._unit is None else "+".join(f._unit)
-            out.append(f"L({name};{ft};{f.num_obs};{u};{int(f._write_level)};{render_obj(f.data, seen)})")
+            out.append(f"L({name};{ft};{f.num_obs};{u};{int(f._write_level)};{render_obj(f.data, seen, tv)})")
     return ",".join(out)
 
 
 def render_world(w) -> str:
     seen: list = []
     out = []
+    tv = getattr(w, "tv", False)
     for d in sorted(w.ds):
         ds = w.ds[d]
-        out.append(f"D{d}({ds.num_obs};[{render_fields(ds._fields, seen)}])")
+        out.append(f"D{d}({ds.num_obs};[{render_fields(ds._fields, seen, tv)}])")
     return "".join(out)
 
 
@@ -176,11 +230,130 @@ def err_enum(e: Exception) -> str:
     return "other:" + type(e).__name__
 
 
-class RealWorld:
+def _epoch_dt(v):
+    """an epoch of a generator: a float MJD (whole days in the generators) or [days since 2000-01-01, microseconds]"""
+    import datetime as _dt
+
+    if isinstance(v, (list, tuple)):
+        return _dt.datetime(2000, 1, 1) + _dt.timedelta(days=int(v[0]), microseconds=int(v[1]))
+    return _dt.datetime(2000, 1, 1) + _dt.timedelta(days=float(v) - 51544.0)
+
+
+def make_time(vals, scale: str, fmt: str):
+    """a Time of the given scale whose values are *in* the given format"""
+    from midgard.data.time import Time
+
+    if fmt == "mjd" and not any(isinstance(v, (list, tuple)) for v in vals):
+        return Time(np.array(vals, dtype=float), scale=scale, fmt="mjd")
+    base = Time(np.array([_epoch_dt(v) for v in vals], dtype=object), scale=scale, fmt="datetime")
+    if fmt == "datetime":
+        return base
+    if len(vals) == 0:
+        return Time(np.array([], dtype=float), scale=scale, fmt=fmt)
+    v = getattr(base, fmt)
+    if fmt == "gps_ws":
+        return Time(val=np.asarray(v.week), val2=np.asarray(v.seconds), scale=scale, fmt=fmt)
+    return Time(val=np.asarray(v), scale=scale, fmt=fmt)
+
+
+def make_time_delta(vals, scale: str, fmt: str):
+    """a TimeDelta (values: days, dyadic) whose values are in the given format"""
+    import datetime as _dt
+    from midgard.data.time import TimeDelta
+
+    if fmt == "days":
+        return TimeDelta(np.array(vals, dtype=float), scale=scale, fmt="days")
+    if fmt == "timedelta":
+        return TimeDelta(np.array([_dt.timedelta(days=float(v)) for v in vals], dtype=object), scale=scale, fmt=fmt)
+    if fmt == "seconds":
+        return TimeDelta(np.array(vals, dtype=float) * 86400.0, scale=scale, fmt=fmt)
+    return TimeDelta(np.array(vals, dtype=float), scale=scale, fmt=fmt)  # jd: days
+
+
+class ConvTable:
+    """What `TimeBase.insert` does to one epoch of `b` before it is spliced into `a` — conversion to the scale of `a`,
+    values in the format of `a` — as a finite table `(tag of b, tag of a, row) -> row`, computed from the real Time code
+    on this run (as the pint unit factors are).  It is closed under conversion between the tags of one history (an
+    array made by an `extend` can be converted again), to a bounded depth."""
+
     def __init__(self):
+        self.rows: Dict[str, Dict[tuple, None]] = {}   # tag -> ordered set of rows (tuples of tokens)
+        self.table: Dict[tuple, Optional[tuple]] = {}
+        self.dirty = False
+
+    def note(self, tag: str, rows):
+        if tag:
+            d = self.rows.setdefault(tag, {})
+            for r in rows:
+                if tuple(r) not in d:
+                    d[tuple(r)] = None
+                    self.dirty = True
+
+    @staticmethod
+    def _convert(fr: str, to: str, rows):
+        from midgard.data._time import TimeArray, TimeDeltaArray
+
+        delta = fr.startswith("d:")
+        if delta != to.startswith("d:"):
+            return None
+        base = TimeDeltaArray if delta else TimeArray
+        fs, ff = fr[2 * delta:].split("/")
+        ts, tf = to[2 * delta:].split("/")
+        j1 = np.array([float(Fraction(r[0][1:])) for r in rows])
+        j2 = np.array([float(Fraction(r[1][1:])) for r in rows])
+        try:
+            with contextlib.redirect_stdout(io.StringIO()):
+                b = base._cls_scale(fs).from_jds(j1, j2, ff)
+                # the lines of `TimeBase.insert`
+                b = b if ts == fs else getattr(b, ts)
+                vals = np.asarray(b) if tf == b.fmt else np.asarray(getattr(b, tf)).T
+                _, _, out = time_rows("time_delta" if delta else "time", b.jd1, b.jd2, vals, len(rows))
+        except Exception:
+            return None
+        if len(out) != len(rows) or any(x[0].startswith("!") for x in out):
+            return None
+        return [tuple(x) for x in out]
+
+    def close(self, depth: int = 4):
+        self.dirty = False
+        tags = sorted(self.rows)
+        for _ in range(depth):
+            new = False
+            for fr in tags:
+                for to in tags:
+                    if fr == to or fr.startswith("d:") != to.startswith("d:"):
+                        continue
+                    todo = [r for r in self.rows[fr] if (fr, to, r) not in self.table and "nan" not in r]
+                    if not todo:
+                        continue
+                    out = self._convert(fr, to, todo)
+                    for i, r in enumerate(todo):
+                        self.table[(fr, to, r)] = None if out is None else out[i]
+                        if out is not None and out[i] not in self.rows[to]:
+                            self.rows[to][out[i]] = None
+                            new = True
+            if not new:
+                break
+
+    def lookup(self, fr: str, to: str, row):
+        if self.dirty:
+            self.close()
+        return self.table.get((fr, to, tuple(row)))
+
+    def token(self) -> str:
+        if self.dirty:
+            self.close()
+        ent = [f"{fr}>{to}>{','.join(r)}={','.join(v)}" for (fr, to, r), v in self.table.items() if v is not None]
+        return "&".join(ent) if ent else "-"
+
+
+class RealWorld:
+    def __init__(self, tv: bool = False):
         self.ds: Dict[int, Any] = {}
         self.objs: List[Any] = []
         self.last_exc: Optional[Exception] = None
+        self.tv = tv
+        self.conv = ConvTable()
 
     # -- references
     def resolve(self, r):
@@ -206,9 +379,9 @@ class RealWorld:
         if k == "text":
             return np.array(v, dtype=str).reshape((n,) if op["ndim"] == 1 else (n, cols))
         if k == "time":
-            return Time(np.array(v, dtype=float), scale=op.get("scale", "utc"), fmt="mjd")
+            return make_time(v, op.get("scale", "utc"), op.get("fmt", "mjd"))
         if k == "time_delta":
-            return TimeDelta(np.array(v, dtype=float), scale=op.get("scale", "utc"), fmt="days")
+            return make_time_delta(v, op.get("scale", "utc"), op.get("fmt", "days"))
         if k == "sigma":
             a = np.array([r[0] for r in v], dtype=float).reshape((n,) if op["ndim"] == 1 else (n, cols))
             s = np.array([r[1] for r in v], dtype=float).reshape((n,) if op["ndim"] == 1 else (n, cols))
@@ -243,8 +416,11 @@ class RealWorld:
                 obj = self.make_obj(op)
                 self.objs.append(obj)
                 # what the model is told about it is read off the object itself
-                kind, ndim, cols, rows = describe(obj)
+                kind, ndim, cols, rows = describe(obj, self.tv)
                 op["rows"] = rows
+                if self.tv and kind in ("time", "time_delta"):
+                    op["ndim"], op["cols"], op["tag"] = ndim, cols, tag_of(obj)
+                    self.conv.note(op["tag"], rows)
                 return "ok", "-"
             ds = self.ds[op["d"]]
             if o == "add":
@@ -270,7 +446,7 @@ class RealWorld:
                 # two tables of plain columns: the columns of the result, for the list-of-records `extend`
                 if not plain:
                     return "ok", "-"
-                return "ok", "x" + "/".join(f"{n}={rows_token(describe(a)[3])}" for n, a in _columns(ds._fields, ""))
+                return "ok", "x" + "/".join(f"{n}={rows_token(describe(a, self.tv)[3])}" for n, a in _columns(ds._fields, ""))
             if o == "merge":
                 ds.merge_with(*[self.ds[e] for e in op["es"]], sort_by=op.get("sort_by"))
                 return "ok", "-"
@@ -343,7 +519,7 @@ def op_tokens(op) -> List[str]:
         return ["new", str(op["d"]), str(op["n"])]
     if o == "obj":
         return ["obj", op["kind"], str(op["ndim"]), str(op["cols"]), rows_token(op.get("rows", [])),
-                ref_token(op.get("other")), ref_token(op.get("ref_pos"))]
+                ref_token(op.get("other")), ref_token(op.get("ref_pos"))] + ([op["tag"]] if op.get("tag") else [])
     if o == "add":
         return ["add", str(op["d"]), op["path"], op["kind"], ref_token(op["val"]), op.get("unit") or "-", str(op["level"])]
     if o == "addcoll":
@@ -399,9 +575,13 @@ def tagged_vals(kind: str, ndim: int, cols: int, tags: List[int], salt: int, tie
     return out
 
 
-def obj_op(kind, ndim, cols, tags, salt, other=None, ref_pos=None, tie_rich=False, late=False):
+def obj_op(kind, ndim, cols, tags, salt, other=None, ref_pos=None, tie_rich=False, late=False, scale=None, fmt=None):
     op = {"op": "obj", "kind": kind, "ndim": ndim, "cols": cols,
           "vals": tagged_vals(kind, ndim, cols, tags, salt, tie_rich)}
+    if scale is not None:
+        op["scale"] = scale
+    if fmt is not None:
+        op["fmt"] = fmt
     if other is not None:
         op["other"] = other
     if ref_pos is not None:
@@ -581,8 +761,12 @@ def random_history(rng) -> List[dict]:
             if kind == "time" and shared_time is not None and rng.random() < 0.4:
                 val = shared_time
             else:
+                scale = fmt = None
+                if kind in ("time", "time_delta") and rng.random() < 0.45:
+                    # another time scale / format than the same field of the other datasets: `insert` converts
+                    scale, fmt = random_time_tag(rng, kind)
                 val = obj(kind, ndim, cols, tags, f["salt"], other=other, ref_pos=ref_pos,
-                          tie_rich=(kind in ("float", "text") and ndim == 1 and rng.random() < 0.5))
+                          tie_rich=(kind in ("float", "text") and ndim == 1 and rng.random() < 0.5), scale=scale, fmt=fmt)
                 if kind == "time":
                     shared_time = val
             ops.append(add_op(d, f["path"], kind, val, unit=unit, level=rng.choice([1, 2, 3])))
@@ -638,6 +822,88 @@ def random_history(rng) -> List[dict]:
                 ib = ",".join(rng.sample(cand, min(len(cand), rng.choice([1, 1, 2]))))
             ops.append({"op": "diff", "d": d, "e": rng.randrange(nds), "r": rng.randrange(nds + 1), "index_by": ib,
                         "cs": rng.random() < 0.5, "co": rng.random() < 0.5})
+    return ops
+
+
+TIME_SCALES = ["utc", "gps", "tai", "tt"]
+TIME_FORMATS = ["mjd", "jd", "datetime", "jyear"]
+
+
+def random_time_tag(rng, kind="time"):
+    if kind == "time_delta":
+        # there is no conversion between the scales of time deltas (UnknownConversionError): rarely
+        return ("utc" if rng.random() < 0.93 else rng.choice(TIME_SCALES)), rng.choice(["days", "seconds", "jd", "timedelta"])
+    # (the formats gps_ws / gps_seconds are left out: they have no value for the empty epoch, so padding such a field
+    # raises ValueError — recorded as a finding)
+    return rng.choice(TIME_SCALES), rng.choice(TIME_FORMATS)
+
+
+# ---------------------------------------------------------------------------------------------
+# histories around time fields: several time fields per dataset, scale and format differing between the datasets,
+# equal epochs in separate arrays, epochs microseconds apart, merge with a time field as the sort key
+
+EPOCH_US = [0, 5, 15, 20, 30, 45, 1_000_000, 1_000_010, 43_200_000_000, 43_200_000_025, 86_399_999_990]
+
+
+def time_history(rng) -> List[dict]:
+    ops: List[dict] = []
+    nobj = [0]
+
+    def push(op):
+        ops.append(op)
+        nobj[0] += 1
+        return ("o", nobj[0] - 1)
+
+    nds = rng.choice([2, 2, 2, 3])
+    tnames = ["sent", "received", "t3"][: rng.choice([2, 2, 3])]
+    nested = rng.random() < 0.25
+    base_tag = random_time_tag(rng)
+    for d in range(nds):
+        n = rng.choice([0, 1, 1, 2, 2, 3, 4, 5])
+        tags = [16 * d + r for r in range(n)]
+        ops.append({"op": "new", "d": d, "n": n})
+        # the datasets agree on scale and format, or differ in the scale, the format, or both
+        r = rng.random()
+        ds_tag = base_tag if (d == 0 or r < 0.2) else random_time_tag(rng)
+        mode = rng.random()   # how the time fields of this dataset relate to each other
+        first = None
+        first_vals = None
+        for i, nm in enumerate(tnames):
+            if rng.random() < 0.08:
+                continue  # missing here: padded with empty epochs by extend
+            tag = ds_tag if rng.random() < 0.85 else random_time_tag(rng)
+            if first is not None and mode < 0.15:
+                val = first                                 # one array under two names
+            else:
+                if first_vals is not None and mode < 0.55:
+                    vals = [list(v) for v in first_vals]    # equal epochs in a separate array
+                else:
+                    vals = [[7305 + rng.choice([0, 0, 0, 1]), rng.choice(EPOCH_US)] for _ in range(n)]
+                val = push({"op": "obj", "kind": "time", "ndim": 1, "cols": 1, "vals": vals, "scale": tag[0], "fmt": tag[1]})
+                if first is None:
+                    first, first_vals = val, vals
+            ops.append(add_op(d, ("g." if nested and i == 1 else "") + nm, "time", val, level=rng.choice([1, 2, 3])))
+        ops.append(add_op(d, "x", "float", push(obj_op("float", 1, 1, tags, 2))))
+        if rng.random() < 0.5:
+            ops.append(add_op(d, "station", "text", push(obj_op("text", 1, 1, tags, 3))))
+    for o in ops[:-1]:
+        o["setup"] = True
+    for _ in range(rng.choice([1, 2, 2, 3, 4])):
+        r = rng.random()
+        d = rng.randrange(nds)
+        e = rng.choice([x for x in range(nds) if x != d]) if rng.random() < 0.9 else d
+        key = rng.choice(tnames)
+        key = ("g." if nested and key == tnames[1] else "") + key
+        if r < 0.35:
+            ops.append({"op": "extend", "d": d, "e": e})
+        elif r < 0.75:
+            ops.append({"op": "merge", "d": d, "es": [e] if rng.random() < 0.8 else [], "sort_by": key})
+        elif r < 0.85:
+            ops.append({"sym": "rand_ints", "d": d, "seed": rng.getrandbits(30)})
+        elif r < 0.93:
+            ops.append({"sym": "rand_mask", "d": d, "p": 0.6, "seed": rng.getrandbits(30)})
+        else:
+            ops.append({"op": "merge", "d": d, "es": [x for x in range(nds) if x != d], "sort_by": key if rng.random() < 0.7 else "x"})
     return ops
 
 
